@@ -196,6 +196,27 @@ def topsOf : List Item → Option (List TopItem)
     | some t, some ts => some (t :: ts)
     | _, _ => none
 
+mutual
+/-- levels of element nesting of an item / of a list of items -/
+def itemNest : Item → Nat
+  | .elem _ _ kids => itemsNest kids + 1
+  | _ => 0
+def itemsNest : List Item → Nat
+  | [] => 0
+  | x :: r => max (itemNest x) (itemsNest r)
+end
+
+/-- the DOM refuses to put an element deeper than the parser reads back (`MAX_ELEMENT_DEPTH`), and the tool ends with an
+    error then.  The tool works through the node-set in document order; when it reaches a selected element below another
+    selected element, that one's children are detached already, so the element's level counts from there. -/
+def depthRefused (req : Bool) (d : IDoc) (ks : List Key) (repl : List Item) : Bool :=
+  ks.any fun k => match locate req d k with
+    | some (.item (.elem _ _ _)) =>
+      let anc := ((ks.filter fun a => a.length < k.length && isPrefix a k &&
+                    (match locate req d a with | some (.item (.elem _ _ _)) => true | some .doc => true | _ => false)).map (·.length)).foldl max 0
+      (k.length - anc) + itemsNest repl > Gen.Xml.maxDepth_element
+    | _ => false
+
 /-- `xe --no-indent --xpath <expr> --value <fragment> < <text>` -/
 def xe (req : Bool) (text : Str) (bind : List (Option Str × Str)) (expr value : Str) : CliOut :=
   -- the value must be a well-formed fragment
@@ -227,6 +248,7 @@ def xe (req : Bool) (text : Str) (bind : List (Option Str × Str)) (expr value :
                  | some tops =>
                    if (tops.filter fun | .elem _ => true | _ => false).length != 1 then .fail
                    else .ok (printDoc { d with kids := tops } ++ ['\n']))
+              else if depthRefused req d ks repl then .fail
               else
                 (match rewriteTops (docDoctype d) req ks repl 0 d.kids with
                  | some ks' => .ok (printDoc { d with kids := ks' } ++ ['\n'])
